@@ -31,6 +31,38 @@ def lex_double(v):
     return v
 
 
+def _collect(outs):
+    res = []
+    for o in outs:
+        if "fatal" in o:
+            res.append(("fatal", o["fatal"]))
+        elif o.get("doc") is None:
+            res.append(None)
+        else:
+            d = {}
+            for key, recs in o["doc"]:
+                lst = d.setdefault(key, [])
+                for r in recs:
+                    attrs = []
+                    for a in sorted(([a[0], lex_double(a[1])] for a in r["attrs"]), key=proto.skey):
+                        if not attrs or attrs[-1] != a:      # an attribute holds a *set* of values
+                            attrs.append(a)
+                    lst.append(proto.skey({"kind": r["kind"], "id": r["id"], "attrs": attrs}))
+            res.append({k: sorted(v) for k, v in d.items()})
+    return res
+
+
+def spec_read_xml_texts(texts):
+    """list of PROV-XML texts -> abstract documents (Lean PROV-XML specification reader) or None"""
+    from . import xmltree
+    ops = [{"op": "reset"}]
+    for t in texts:
+        tree = xmltree.dump(xmltree.parse(t))
+        hints = [{"lex": k, "f": v} for k, v in xmltree.double_hints(tree).items()]
+        ops.append({"op": "spec_xml", "tree": tree, "hints": hints})
+    return _collect(run_model(ops)[1:])
+
+
 def spec_read_json_texts(texts):
     """list of PROV-JSON texts -> list of abstract documents {bundle key: sorted strict records} or None"""
     ops = [{"op": "reset"}]
